@@ -93,7 +93,7 @@ Definition only_ref (h h' : heap) (w : positive) : Prop :=
             end.
 
 Definition unref_fate (f : nat) : Prop := forall D h w c,
-  hinv D h -> detached h D -> findw h w = Some c -> ~ In w D ->
+  hinv D h -> detached h D -> findw h w = Some c -> ~ In w D -> (w_parent c <> None -> ~ In root D) ->
   match unref fixed f w h with
   | Ok _ h' => (w_ref c = 1 -> fate [w] h h' /\ findw h' w = None) /\ (w_ref c <> 1 -> only_ref h h' w)
   | Fault _ _ => False
@@ -101,7 +101,7 @@ Definition unref_fate (f : nat) : Prop := forall D h w c,
   end.
 
 Definition destroy_fate (f : nat) : Prop := forall D h w cw,
-  hinv (w :: D) h -> detached h D -> findw h w = Some cw -> ~ In w D ->
+  hinv (w :: D) h -> detached h D -> findw h w = Some cw -> ~ In w D -> (w_parent cw <> None -> ~ In root D) ->
   match destroy fixed f w h with
   | Ok _ h' => fate [w] h h'
   | Fault _ _ => False
@@ -129,7 +129,7 @@ Qed.
 
 Lemma unref_fate_step : forall f, destroy_ok f -> destroy_fate f -> unref_fate (S f).
 Proof.
-  intros f Hdes Hfate D h w c HI Hdet Hw Hn.
+  intros f Hdes Hfate D h w c HI Hdet Hw Hn Hrd.
   rewrite unref_S. unfold bind at 1. rewrite (getw_run h w c Hw).
   pose proof (hi_ref D h HI w c Hw Hn) as Href.
   assert (Hlt : (w_ref c <? 1) = false) by (apply Z.ltb_ge; lia). rewrite Hlt.
@@ -148,8 +148,8 @@ Proof.
       - eapply hinv_weaken; eauto. intros a Ha. right. exact Ha.
       - intros a c' Hf Hd. assert (Ha : a <> w) by (intro E; subst a; apply Hd; left; reflexivity).
         rewrite (Hoth a Ha) in Hf. apply (hi_ref D h HI a c' Hf). intro Hin. apply Hd. right. exact Hin. }
-    pose proof (Hdes D h1 w _ HI1 (links_eq_detached h h1 D L Hdet) Hw1 Hn h1 eq_refl) as Hd.
-    pose proof (Hfate D h1 w _ HI1 (links_eq_detached h h1 D L Hdet) Hw1 Hn) as Hf.
+    pose proof (Hdes D h1 w _ HI1 (links_eq_detached h h1 D L Hdet) Hw1 Hn Hrd h1 eq_refl) as Hd.
+    pose proof (Hfate D h1 w _ HI1 (links_eq_detached h h1 D L Hdet) Hw1 Hn Hrd) as Hf.
     destruct (destroy fixed f w h1) as [u h2| |]; [|contradiction|exact I].
     destruct Hd as [_ [_ [_ Hgone]]]. split; [|intro; lia].
     intros _. split; [|exact Hgone].
@@ -163,7 +163,7 @@ Qed.
 
 Lemma destroy_fate_step : forall f, loop_ok f -> loop_fate f -> destroy_fate (S f).
 Proof.
-  intros f Hloop Hlfate D h w cw HI Hdet Hw Hn.
+  intros f Hloop Hlfate D h w cw HI Hdet Hw Hn Hrd.
   rewrite destroy_S_fixed.
   unfold bind at 1. unfold log_destroy.
   set (h1 := mkHeap (wins h) (reqs h) (rx h) (nextw h) (nextq h) (w :: dlog h) (uninit_seen h) (tr h)).
@@ -184,7 +184,9 @@ Proof.
       pose proof (hi_closed (w :: D) h1 HI1 w cw Hw1 Hcl) as Hp. split; [|split; [eauto|]].
       + intro Hnr. eapply unqueued_off_tree; eauto. eapply anc_refl; eauto.
       + intros x Hx. destruct (findw h1 x); auto.
-    - pose proof (close_spec (w :: D) f w cw h1 HI1 Hw1 h1 eq_refl) as Hc.
+    - assert (Hrd1 : w_parent cw <> None -> ~ In root (w :: D)).
+      { intros Hpc [Ew|Hi]; [|exact (Hrd Hpc Hi)]. subst w. apply Hpc. exact (hi_root_parent (root :: D) h1 HI1 cw Hw1). }
+      pose proof (close_spec (w :: D) f w cw h1 HI1 Hw1 Hrd1 h1 eq_refl) as Hc.
       destruct (close fixed f w h1) as [u h2| |]; [|contradiction|exact I].
       destruct Hc as [HI2 [WK2 [SH2 [Hu2 [[cw2 [Hw2 [Hp2 _]]] Hex]]]]].
       split; [exact HI2|]. split; [exact WK2|]. split; [exact SH2|]. split; [exact Hu2|]. split; [exists cw2; auto|].
@@ -277,7 +279,7 @@ Proof.
     assert (CB : cells_by h hp (pop_F w k cw (w_next ck))).
     { unfold pop_F. eapply cells_by_trans with (h2 := h2); [|apply cells_by_on].
       eapply cells_by_trans with (h2 := h1); apply cells_by_on. }
-    destruct (hinv_pop (w :: D) h hp w k cw ck HI (or_introl eq_refl) Hw Hfi Hk Hunq CB) as [HIp Kp].
+    destruct (hinv_pop (w :: D) h hp w k cw ck HI (or_introl eq_refl) Hw Hwp Hfi Hk Hunq CB) as [HIp Kp].
     assert (Hdetp : detached hp (w :: D)).
     { intros a Ha. destruct (Hdet a Ha) as [ca [Hfa Hpa]].
       destruct (kp_wins h hp Kp a ca Hfa) as [ca' [Hfa' [[Ep|Ep] _]]]; exists ca'; split; auto; congruence. }
@@ -295,8 +297,10 @@ Proof.
       - apply (kp_dom h hp Kp). exact Hd. }
     unfold bind at 1.
     assert (Hlk : findw hp k <> None) by congruence.
-    pose proof (Hunref (w :: D) hp k HIp Hdetp Hlk Hnk hp eq_refl) as Hu.
-    pose proof (Hufate (w :: D) hp k _ HIp Hdetp Hkp' Hnk) as Huf.
+    assert (Hkpp : forall c, findw hp k = Some c -> w_parent c <> None -> ~ In root (w :: D)).
+    { intros c Hc Hpc. exfalso. apply Hpc. rewrite Hkp' in Hc. inversion Hc. reflexivity. }
+    pose proof (Hunref (w :: D) hp k HIp Hdetp Hlk Hnk Hkpp hp eq_refl) as Hu.
+    pose proof (Hufate (w :: D) hp k _ HIp Hdetp Hkp' Hnk (Hkpp _ Hkp')) as Huf.
     destruct (unref fixed f k hp) as [u hu| |]; [|contradiction|exact I].
     destruct Hu as [HIu [Hdetu Shu]]. cbn [w_ref set_next set_parent] in Huf. destruct Huf as [Huf1 Huf2].
     assert (Sh0u : shrinks h hu) by (eapply shrinks_trans; [apply keeps_shrinks; exact Kp|exact Shu]).
